@@ -124,6 +124,16 @@ Theorem C11_source : forall p i f r c n,
 Proof. exact source_hop_withstack. Qed.
 Print Assumptions C11_source.
 
+(* an errno received from another platform keeps its predicates on every further hop
+   (library repair 176a263; before it the second hop gave a plain opaque leaf) *)
+Example C11_foreign_errno :
+  let e := Wrap 101%positive (WHint (lit "h"))
+             (Leaf 100%positive (LOpaqueErrno (lit "no such file or directory")
+                (mkerrno 2%Z (lit "plan9:mips") false false true false false))) in
+  let e2 := fst (transfer [all_knowing; all_knowing; all_knowing] e 1000%positive) in
+  exact_tree e = true /\ is_notexist e = true /\ is_notexist e2 = true /\ erase e2 = erase e.
+Proof. vm_compute. repeat split. Qed.
+
 Example C11_example :
   let e := Wrap 103%positive (WHint (lit "h")) (Wrap 102%positive (WDomain (lit "error domain: d"))
             (Wrap 101%positive (WTelemetry [lit "k1"; lit "k2"]) (Leaf 100%positive (LErrString (lit "x"))))) in
